@@ -227,6 +227,7 @@ func (a *Allocation) RemoveChannelBind(number proto.ChannelNumber) bool {
 
 // GetChannelByNumber gets the ChannelBind from this allocation by id.
 func (a *Allocation) GetChannelByNumber(number proto.ChannelNumber) *ChannelBind {
+	verifhook.At("chan.get.number", a)
 	a.channelBindingsLock.RLock()
 	defer a.channelBindingsLock.RUnlock()
 	for _, cb := range a.channelBindings {
@@ -240,6 +241,7 @@ func (a *Allocation) GetChannelByNumber(number proto.ChannelNumber) *ChannelBind
 
 // GetChannelByAddr gets the ChannelBind from this allocation by net.Addr.
 func (a *Allocation) GetChannelByAddr(addr net.Addr) *ChannelBind {
+	verifhook.At("chan.get.addr", a)
 	a.channelBindingsLock.RLock()
 	defer a.channelBindingsLock.RUnlock()
 	for _, cb := range a.channelBindings {
